@@ -326,6 +326,75 @@ def it_collect(se, env, pc, vals, cont):
     loop([], it, env, pc)
 
 
+# ---------------------------------------------------------------- Option / Result combinators taking closures (CPS)
+def _enum_of(se, env, v):
+    v = se.deref(env, v) if isinstance(v, Ref) else v
+    if not isinstance(v, Enum): raise Inconclusive('combinator on %r' % (v,))
+    return v
+
+
+def _combinator(on_tags, wrap, passthrough=lambda v: v):
+    """value.tag in on_tags: closure(payload) -> wrap(result); otherwise passthrough(value)."""
+    @cps
+    def f(se, env, pc, vals, cont):
+        v = _enum_of(se, env, vals[0]); clo = vals[-1]
+        if v.tag in on_tags:
+            args = [v.fields[0]] if v.fields else []
+            return apply_closure(se, env, pc, clo, args, lambda r, e, p: cont(wrap(r), e, p))
+        return cont(passthrough(v), env, pc)
+    return f
+
+
+@cps
+def _map_or(se, env, pc, vals, cont):
+    v = _enum_of(se, env, vals[0]); default, clo = vals[1], vals[2]
+    if v.tag in ('Some', 'Ok'): return apply_closure(se, env, pc, clo, [v.fields[0]], cont)
+    return cont(default, env, pc)
+
+
+@cps
+def _map_or_else(se, env, pc, vals, cont):
+    v = _enum_of(se, env, vals[0]); dclo, clo = vals[1], vals[2]
+    if v.tag in ('Some', 'Ok'): return apply_closure(se, env, pc, clo, [v.fields[0]], cont)
+    return apply_closure(se, env, pc, dclo, [v.fields[0]] if v.tag == 'Err' else [], cont)
+
+
+@cps
+def _unwrap_or_else(se, env, pc, vals, cont):
+    v = _enum_of(se, env, vals[0])
+    if v.tag in ('Some', 'Ok'): return cont(v.fields[0], env, pc)
+    return apply_closure(se, env, pc, vals[1], [v.fields[0]] if v.tag == 'Err' else [], cont)
+
+
+def combinator_summaries(P):
+    P[r'Result::or_else'] = _combinator(('Err',), lambda r: r)
+    P[r'Result::and_then'] = _combinator(('Ok',), lambda r: r)
+    P[r'Option::and_then'] = _combinator(('Some',), lambda r: r)
+    P[r'Option::or_else'] = _combinator(('None',), lambda r: r)
+    P[r'Result::map'] = _combinator(('Ok',), lambda r: Enum('Ok', (r,)))
+    P[r'(?:Option|Result)::map_or'] = _map_or
+    P[r'(?:Option|Result)::map_or_else'] = _map_or_else
+    P[r'(?:Option|Result)::unwrap_or_else'] = _unwrap_or_else
+    P[r'(?:Option|Result)::unwrap_or'] = lambda se, env, pc, v, d: one(env, _enum_of(se, env, v).fields[0] if _enum_of(se, env, v).tag in ('Some', 'Ok') else d)
+    P[r'Result::ok'] = lambda se, env, pc, v: one(env, Enum('Some', (v.fields[0],)) if v.tag == 'Ok' else Enum('None'))
+    P[r'Result::err'] = lambda se, env, pc, v: one(env, Enum('Some', (v.fields[0],)) if v.tag == 'Err' else Enum('None'))
+    P[r'Option::ok_or'] = lambda se, env, pc, v, e: one(env, Enum('Ok', (v.fields[0],)) if v.tag == 'Some' else Enum('Err', (e,)))
+    P[r'Option::filter'] = _filter
+
+
+@cps
+def _filter(se, env, pc, vals, cont):
+    v = _enum_of(se, env, vals[0])
+    if v.tag == 'None': return cont(v, env, pc)
+    se.ncell = getattr(se, 'ncell', 0) + 1
+    cell = '$flt%d' % se.ncell; env = dict(env); env[cell] = v.fields[0]
+    def k(r, e, p):
+        if isinstance(r, bool) or is_true(r) or is_false(r):
+            return cont(v if (r is True or is_true(r)) else Enum('None'), e, p)
+        se.under(r, lambda: cont(v, e, p + [r])); se.under(Not(r), lambda: cont(Enum('None'), e, p + [Not(r)]))
+    apply_closure(se, env, pc, vals[1], [Ref(cell)], k)
+
+
 def _sort_by_key_late(se, env, pc, vals, cont): return sort_by_key(se, env, pc, vals, cont)
 _sort_by_key_late.cps = True
 
@@ -420,6 +489,7 @@ def std_summaries():
     P[r'std::io::Error::kind'] = lambda se, env, pc, e: one(env, (se.deref(env, e) if isinstance(e, Ref) else e).get('kind', Opaque('kind')) if isinstance((se.deref(env, e) if isinstance(e, Ref) else e), dict) else Opaque('kind'))
     P[r'<.* as ToString>::to_string'] = lambda se, env, pc, e: one(env, {'str': '<to_string>'})
     P[r'std::mem::drop'] = unit
+    combinator_summaries(P)
     P[r'core::mem::drop'] = unit
     return S
 
